@@ -18,6 +18,17 @@ CLAIMED = {
         ref='DESIGN.md 5 C13'),
 }
 
+CLAIMED['C19'] = dict(
+    text='Theorems for every job string, grouping key and gateway spelling (unbounded): URL-safe base64 and quote_plus round trips '
+         '(b64_roundtrip, unquote_quote_plus), every escaped segment is non-empty and slash-free, the path built by _use_gateway decodes under '
+         "the Pushgateway's rules to (job, job) followed by the grouping labels in sorted order (path_decodes, url_decodes), hence url_injective; "
+         'method table PUT/POST/DELETE, empty delete body, text content type, timeout hand-over, gateway spelling equivalences. The literals, the '
+         'sorted() call and the escape shape are re-extracted from exposition.py on every run; model vs real code on ~7·10^3 requests (exhaustive '
+         'short strings over a URL-significant alphabet + random) with an independent decoder oracle (urlsafe_b64decode / unquote_plus) on the real URLs.',
+    note='Trusted: Lean kernel; urlparse reduced to its scheme test (compared with the real urlparse per case); sorted() of unique str keys = '
+         'code-point order; exposition body is an opaque parameter here (C03 covers it); extractor; sampling correspondence.',
+    ref='DESIGN.md 5 C19')
+
 PENDING_REASON = 'not claimed yet: model/theorems for this property are not built at this commit (work order in DESIGN.md 8); no other technique is substituted'
 
 
